@@ -79,6 +79,7 @@ class Engine(ExprMixin, CallMixin):
         self.spec_types = {}
         self.user_order = user_order or {}
         self.attr_models = {}
+        self.nullable_sorts = set()  # opaque sorts whose values may be Python's None
         self.callable_sorts = {}
         self.isinstance_static = {}
         self.mutable_records = set()
